@@ -685,6 +685,16 @@ impl Property for C19 {
                 steps += 1;
                 w.route(n, &all, true, &mut rep, ctx);
             }
+            // one run in 32: a write burst - one node hands over 513 to 1600 updates in a single batch (far more than any
+            // per-message cap a sender might apply); every one of them still has to reach exactly its owners
+            if !w.stop && (w.fp >> 12) % 32 == 0 {
+                let n = ((w.fp >> 5) % np as u64) as usize;
+                let size = 513 + ((w.fp >> 20) % 1100) as usize;
+                let burst: Vec<usize> = (0..size).map(|i| (i * 7 + 3) % nk).collect();
+                rep.probe("burst_of_over_512_updates_in_one_batch");
+                steps += 1;
+                w.route(n, &burst, true, &mut rep, ctx);
+            }
         }
         if !w.stop {
             let mut guard = 0;
